@@ -379,3 +379,21 @@ func newCollection(s *Schema, opts column.Options) *column.Collection {
 	}
 	return c
 }
+
+// newCollectionLive creates a collection holding exactly the schema columns that are live.
+func newCollectionLive(s *Schema, live []bool, opts column.Options) *column.Collection {
+	opts.Capacity = s.Capacity
+	if opts.Vacuum == 0 {
+		opts.Vacuum = 24 * 3600 * 1e9
+	}
+	c := column.NewCollection(opts)
+	for i, cs := range s.Cols {
+		if i == 0 || !live[i] {
+			continue
+		}
+		if err := c.CreateColumn(cs.Name, newColumn(cs)); err != nil {
+			panic(fmt.Sprintf("CreateColumn(%s): %v", cs.Name, err))
+		}
+	}
+	return c
+}
